@@ -505,11 +505,16 @@ func (m *Machine) conv(dst, src types.Type, x Value) Value {
 // implements reports whether dynamic type t implements interface it.
 func (p *Program) implements(t types.Type, it *types.Interface) bool {
 	k := [2]types.Type{t, it}
-	if r, ok := p.implMemo[k]; ok {
+	p.implMu.Lock()
+	r, ok := p.implMemo[k]
+	p.implMu.Unlock()
+	if ok {
 		return r
 	}
-	r := types.Implements(t, it)
+	r = types.Implements(t, it)
+	p.implMu.Lock()
 	p.implMemo[k] = r
+	p.implMu.Unlock()
 	return r
 }
 
